@@ -216,7 +216,7 @@ pub fn poly_centres(quick: bool) -> Vec<(f64, f64)> {
 
 pub fn queries(quick: bool) -> Vec<PolyQ> {
   let depths: Vec<u8> = if quick { (0..=6).collect() } else { (0..=9).collect() };
-  let ns: Vec<usize> = if quick { vec![3, 4, 5, 8] } else { vec![3, 4, 5, 6, 8, 12] };
+  let ns: Vec<usize> = if quick { vec![3, 4, 5, 6, 8] } else { vec![3, 4, 5, 6, 8, 12] };
   let radii = [1e-4, 0.003, 0.02, 0.1, 0.28, 0.5, 0.79];
   let mut v = vec![];
   for &(lon, lat) in &poly_centres(quick) {
